@@ -350,13 +350,39 @@ def run_case(case):
             L0 = sim.angular_momentum()
             d0 = [[math.dist((p.x, p.y, p.z), (q.x, q.y, q.z)) for q in sim.particles] for p in sim.particles]
             q = Rotation(angle=r.uniform(-3, 3), axis=rv())
-            sim.rotate(q)
+            # variational particles are vectors of the same space: a rotation of the simulation rotates them with it (first and second order,
+            # full and test-particle sets), so that rotating and integrating commute
+            varv0 = None
+            if r.random() < 0.6:
+                vs_ = [sim.add_variation()]
+                if r.random() < 0.5:
+                    vs_.append(sim.add_variation(testparticle=r.randrange(1, sim.N - sim.N_var)))
+                if r.random() < 0.4:
+                    vs_.append(sim.add_variation(order=2, first_order=vs_[0]))
+                for v_ in vs_:
+                    for pv_ in v_.particles:
+                        pv_.x, pv_.y, pv_.z, pv_.vx, pv_.vy, pv_.vz = [r.uniform(-1, 1) for _q in range(6)]
+                nreal_ = sim.N - sim.N_var
+                varv0 = [((p.x, p.y, p.z), (p.vx, p.vy, p.vz)) for p in sim.particles[nreal_:]]
+                counters['sim_rotations_with_variational_particles'] = counters.get('sim_rotations_with_variational_particles', 0) + 1
+            if varv0 is not None and r.random() < 0.5:
+                sim = q * sim if hasattr(q, '__mul__') and r.random() < 0.5 else (sim.rotate(q) or sim)
+            else:
+                sim.rotate(q)
+            if varv0 is not None:
+                nreal_ = sim.N - sim.N_var
+                for k_, (p, (x0_, v0_)) in enumerate(zip(sim.particles[nreal_:], varv0)):
+                    wx_, wv_ = rot(q, list(x0_)), rot(q, list(v0_))
+                    if gt(max(abs(a_ - b_) for a_, b_ in zip((p.x, p.y, p.z, p.vx, p.vy, p.vz), wx_ + wv_)), 16 * EPS * (nrm(list(x0_)) + nrm(list(v0_)))):
+                        add('rotation:sim-variational-particles-not-rotated', 'variational particle %d of %d: %r, rotation of its old coordinates gives %r' % (k_, sim.N_var, (p.x, p.y, p.z), wx_))
+                        break
             E1 = sim.energy()
             L1 = sim.angular_momentum()
-            d1 = [[math.dist((p.x, p.y, p.z), (q_.x, q_.y, q_.z)) for q_ in sim.particles] for p in sim.particles]
+            nre_ = sim.N - sim.N_var
+            d1 = [[math.dist((p.x, p.y, p.z), (q_.x, q_.y, q_.z)) for q_ in sim.particles[:nre_]] for p in sim.particles[:nre_]]
             if gt(abs(E1 - E0), 256 * EPS * abs(E0)):
                 add('rotation:sim-energy-changed', '%r -> %r' % (E0, E1))
-            if gt(max(abs(d1[i][j] - d0[i][j]) for i in range(sim.N) for j in range(sim.N)), 64 * EPS * max(max(row) for row in d0)):
+            if gt(max(abs(d1[i][j] - d0[i][j]) for i in range(nre_) for j in range(nre_)), 64 * EPS * max(max(row) for row in d0)):
                 add('rotation:sim-pair-distance-changed', '')
             Lr = rot(q, list(L0))
             if gt(max(abs(Lr[i] - L1[i]) for i in range(3)), 256 * EPS * nrm(list(L0))):
